@@ -94,6 +94,16 @@ func (w *fakeRW) Hijack() (net.Conn, *bufio.ReadWriter, error) {
 	return w.conn, w.brw, nil
 }
 
+// wrappedRW is what logging / metrics middleware hands to a handler: a
+// ResponseWriter that does not implement http.Hijacker itself and exposes the
+// real writer through Unwrap (the http.ResponseController protocol).
+type wrappedRW struct{ inner http.ResponseWriter }
+
+func (w *wrappedRW) Header() http.Header         { return w.inner.Header() }
+func (w *wrappedRW) Write(p []byte) (int, error) { return w.inner.Write(p) }
+func (w *wrappedRW) WriteHeader(code int)        { w.inner.WriteHeader(code) }
+func (w *wrappedRW) Unwrap() http.ResponseWriter { return w.inner }
+
 func allowOrigin(*http.Request) bool { return true }
 
 // upgradeRequest builds a minimal valid upgrade request without going through
